@@ -41,7 +41,7 @@ PROPS = {
         "oracle_engine": {"dispatch": "dispatch", "hsadv": "hs"},
         "trusted": ["handler bodies are opaque (they only decide keep-alive)", "session flags = handshake outcome; their truth is C03/C06"],
         "technique": "Lean 4 theorems (induction over the follow-on command list with the per-iteration re-check as invariant) composed with the handshake model + correspondence on a real server.Server with scripted command sequences, four kinds of client, reconnect-and-resume",
-        "level_text": "levelOK_is_the_code (the model's level test EQUALS the definition tools/gen translates from server.commandLevelSatisfied on every run, for all level strings), satisfies_is_the_code / no_session_no_command (the gate Server.satisfies passes exactly when the definition translated from server.sessionSatisfies returns nil), switch_before_step / switch_after / switch_none (reconfiguration DURING a kept-alive connection, model serveAuthSw: every command is judged by the server in force when it arrives), dispatch_sound (every invoked authenticated handler: registered, not raw, session meets the command's CURRENT level, identity currently authorized — all follow-on sequences, all keep-alive behaviours), levelOK_meaning, raw_path_only_raw, auth_path_never_raw, refuse_closes, raw_refuse_closes, valid_commands_sound (with the authorization conjunct), valid_commands_dispatchable, no_level_never_authorized: kernel-checked. The server-side close is observed before the harness closes anything; the post-auth ValidCommands advertisement is observed, judged and compared; commands without permission levels / without own policy under a non-OPTIONAL base configuration; follow-on commands on resumed connections. Tied to the code by the dispatch engine: real server with per-command policies/authorization levels and 3 authorizer tables, every command sequence of length <=3 (sampled above 2) over authenticated/raw/unknown commands with random keep-alive patterns, 4 client kinds, reconnect-and-resume with another command; invoked handlers (with the stream's real encryption state) compared with the model composed with honestRun. dispatch_sound_real: the session record is the outcome of serverFull / serverResume - auth REQUIRED => one of the server's own methods really completed (or the resumed entry was established authenticated), enc/integrity REQUIRED => the stream holds the key; serveAuthH / dispatch_sound_H / dispatch_ends / refuse_closes_H: the three-outcome handler model (close, keep-alive, KeepOpen) - a refusal or an unknown command always closes.",
+        "level_text": "levelOK_is_the_code (the model's level test EQUALS the definition tools/gen translates from server.commandLevelSatisfied on every run, for all level strings), satisfies_is_the_code / no_session_no_command (the gate Server.satisfies passes exactly when the definition translated from server.sessionSatisfies returns nil), switch_before_step / switch_after / switch_none / switch_late / switch_sound (reconfiguration DURING a kept-alive connection, model serveAuthSw: every command is judged by the server in force when it arrives), dispatch_sound (every invoked authenticated handler: registered, not raw, session meets the command's CURRENT level, identity currently authorized — all follow-on sequences, all keep-alive behaviours), levelOK_meaning, raw_path_only_raw, auth_path_never_raw, refuse_closes, raw_refuse_closes, valid_commands_sound (with the authorization conjunct), valid_commands_dispatchable, no_level_never_authorized: kernel-checked. The server-side close is observed before the harness closes anything; the post-auth ValidCommands advertisement is observed, judged and compared; commands without permission levels / without own policy under a non-OPTIONAL base configuration; follow-on commands on resumed connections. Tied to the code by the dispatch engine: real server with per-command policies/authorization levels and 3 authorizer tables, every command sequence of length <=3 (sampled above 2) over authenticated/raw/unknown commands with random keep-alive patterns, 4 client kinds, reconnect-and-resume with another command; invoked handlers (with the stream's real encryption state) compared with the model composed with honestRun. dispatch_sound_real: the session record is the outcome of serverFull / serverResume - auth REQUIRED => one of the server's own methods really completed (or the resumed entry was established authenticated), enc/integrity REQUIRED => the stream holds the key; serveAuthH / dispatch_sound_H / dispatch_ends / refuse_closes_H: the three-outcome handler model (close, keep-alive, KeepOpen) - a refusal or an unknown command always closes.",
         "level_note": "Handler bodies are opaque; the per-command policy function and authorizer are parameters (they may change between connections). The theorems assume the session flags are true (C03); the hsadv engine (C03) therefore also runs under this check and its violations count here.",
         "assumptions": ["reported session flags equal the real state (C03, C06)"],
     },
